@@ -337,7 +337,7 @@ def check(run, replay):
                     "the use of '%s' at %s is linked to the declaration at %s, clang binds it to %s" % (dd["name"], dd["site"], dd["cppcheck_declaration"], dd["clang_declarations"]))
         elif kind == "member-vs-global":
             key = "member-function-use-binds-earlier-global"
-            what = ("inside a member function (out-of-class definition, or a derived class using an inherited member) an unqualified use of a data member "
+            what = ("REGRESSION of /repo dc43c26: inside a member function (out-of-class definition, or a derived class using an inherited member) an unqualified use of a data member "
                     "whose name was declared earlier at namespace scope is linked to that global: '%s' at %s -> cppcheck %s, clang %s" % (dd["name"], dd["site"], dd["cppcheck_declaration"], dd["clang_declarations"]))
         elif kind == "resolution":
             key = "resolution:" + hashlib.sha1(small.encode()).hexdigest()[:10]
